@@ -128,7 +128,6 @@ Definition on_end (verbose : bool) (s : lst) : res (list Z * lst) :=
   end.
 
 (* ---------------- outcome of a CLI action ---------------- *)
-Inductive effect := WriteFile (path : list Z) (content : list Z) | MkDir (path : list Z).
 Record outcome := mkOutcome { o_status : Z; o_lines : list (list Z); o_effects : list effect;
                               o_crash : option err }.
 
